@@ -1884,9 +1884,11 @@ TARGETS += [
 # A method is translated as a function of an explicit `self` RECORD (the attributes it reads / writes, declared
 # per Lean type in OTYPES) that returns the updated record; `raise` is `.error .<PythonExceptionClass>` in the
 # generated enum `PyErr`.  The shape of the result is declared per target by `sig=(mut, exc, ret)`:
-#     mut exc ret     Except PyErr (Self × ret)          mut exc -      Except PyErr Self
+#     mut exc ret     Self × Except PyErr ret            mut exc -      Self × Except PyErr Unit
 #     mut  -  ret     Self × ret                         mut  -  -      Self
 #      -  exc ret     Except PyErr ret                    -   -  ret    ret
+# (a method that changes its object returns the object AS IT IS WHEN IT RAISES together with the error: what was
+# assigned before a `raise`, or before a callee raised, stays assigned — Python keeps it)
 # and the translator REFUSES a body that does more than the declaration allows (assigns an attribute / calls a
 # mutating method although `mut` is false; may raise although `exc` is false).
 #
@@ -2093,9 +2095,10 @@ OTYPES = {
     "PyEvent K": {"attrs": {"timestamp": ("base.ts", "Int"), "event_type": ("base.kind.name", "String"),
                             "ev": ("ev", "Evse.Ev K")}},
     # the network and the queue of a Simulator are ABSTRACT here: their methods are parameters of the translation
-    "σ": {"methods": {"plugin": {"lean": "netPlugin {recv}", "args": ["Evse.Ev K"], "mut": True, "exc": "id", "ret": None},
+    "σ": {"methods": {"plugin": {"lean": "netPlugin {recv}", "args": ["Evse.Ev K"], "mut": True, "exc": "id", "ret": None,
+                                 "stateful": True},
                       "unplug": {"lean": "netUnplug {recv}", "args": ["String", "Option String"], "mut": True,
-                                 "exc": "id", "ret": None}}},
+                                 "exc": "id", "ret": None, "stateful": True}}},
     "τ": {"methods": {"add_event": {"lean": "queueAdd {recv}", "args": ["Event"], "mut": True, "exc": None, "ret": None}}},
     "PySim K σ τ": {"attrs": {"network": ("network", "σ"), "event_queue": ("queue", "τ"),
                               "ev_history": ("evHistory", "Dict (Evse.Ev K)"), "_resolve": ("resolve", "Bool"),
@@ -2144,6 +2147,11 @@ class STr:
     def tmp(self, p="v"):
         self.n += 1
         return f"{p}{self.n}"
+
+    def ERR(self, e):
+        """what a raising path returns: the error — and, in a method that changes its object, the object as it is
+        at the moment of the raise (Python keeps what was assigned before an exception)"""
+        return f"(self, .error {e})" if self.mut else f".error {e}"
 
     def need_exc(self, what):
         if not self.exc:
@@ -2208,13 +2216,22 @@ class STr:
                 out += f"{indent}let {b[1]} := {b[2]}\n"
             elif b[0] == "exc":
                 self.need_exc(b[2])
-                err = ".error x" if b[3] in (None, "id") else f".error ({b[3]} x)"
+                err = self.ERR("x" if b[3] in (None, "id") else f"({b[3]} x)")
                 scrut = f"({b[2]} : Except PyErr _)" if b[3] in (None, "id") else b[2]
                 out += f"{indent}match {scrut} with\n{indent}| .error x => {err}\n{indent}| .ok {b[1]} =>\n"
                 indent += "  "
             elif b[0] == "opt":
                 self.need_exc(b[2])
-                out += f"{indent}match {b[2]} with\n{indent}| none => .error .{b[3]}\n{indent}| some {b[1]} =>\n"
+                out += f"{indent}match {b[2]} with\n{indent}| none => {self.ERR('.' + b[3])}\n{indent}| some {b[1]} =>\n"
+                indent += "  "
+            elif b[0] == "mexc":
+                # a callee that may raise AFTER it has changed its object: its state is written back on both paths
+                self.need_exc(b[3])
+                _k, st, v, expr, conv, writes = b
+                wb = "".join(f"{indent}  let {w[1]} := {w[2]}\n" for w in writes)
+                err = self.ERR("x" if conv in (None, "id") else f"({conv} x)")
+                out += (f"{indent}match {expr} with\n{indent}| ({st}, .error x) =>\n{wb}{indent}  {err}\n"
+                        f"{indent}| ({st}, .ok {v}) =>\n{wb}")
                 indent += "  "
             else:
                 raise Unsupported("internal: binding kind")
@@ -2233,6 +2250,8 @@ class STr:
                 tail = f"(match {scrut} with | .error x => {err} | .ok {b[1]} => {tail})"
             elif b[0] == "opt":
                 tail = f"(match {b[2]} with | none => .error .{b[3]} | some {b[1]} => {tail})"
+            else:
+                raise Unsupported("a mutating call inside the right operand of and / or, or in a comprehension")
         return tail
 
     # ------------------------------------------------------------------ places (things that can be read and, maybe, written)
@@ -2524,8 +2543,9 @@ class STr:
             raise Unsupported(f"{what} is called with {len(n.args)} arguments, the tie expects {len(types)}")
         return [self.tex(a, env, pre, ty)[0] for a, ty in zip(n.args, types)]
 
-    def apply(self, expr, recv, mut, exc, ret, pre, order="state_value"):
-        """bind the result of a call `expr` whose receiver is the place `recv`"""
+    def apply(self, expr, recv, mut, exc, ret, pre, order="state_value", stateful=False):
+        """bind the result of a call `expr` whose receiver is the place `recv`; `stateful`: the callee returns
+        `State × Except PyErr _` (its object as it is when it raises), not `Except _ (State × _)`"""
         if mut:
             self.need_mut(expr)
             if recv.write is None:
@@ -2537,6 +2557,9 @@ class STr:
             pat = s
         else:
             pat = v
+        if mut and exc is not None and stateful:
+            pre.append(("mexc", s, (v if ret is not None else "_"), expr, exc, recv.write(s)))
+            return (v if ret is not None else None), ret
         if exc is not None:
             pre.append(("exc", pat, expr, exc))
         elif mut or ret is not None:
@@ -2631,7 +2654,7 @@ class STr:
                 expr = " ".join([m["lean"].format(recv=recv.read)] + args + list(m.get("extra", [])))
                 if not m["mut"] and m["exc"] is None:
                     return f"({expr})", m["ret"]
-                v, ty = self.apply(expr, recv, m["mut"], m["exc"], m["ret"], pre)
+                v, ty = self.apply(expr, recv, m["mut"], m["exc"], m["ret"], pre, stateful=m.get("stateful", False))
                 return (v or "()"), (ty or "Unit")
             ct = self.sig_of(m)
             cmut, cexc, cret = ct.sig
@@ -2644,7 +2667,7 @@ class STr:
             expr = " ".join([ct.lean_name] + extra + (["fuel"] if ct.fuel else []) + [recv.read] + args)
             if not cmut and not cexc:
                 return f"({expr})", cret
-            v, ty = self.apply(expr, recv, cmut, None if not cexc else "id", cret, pre)
+            v, ty = self.apply(expr, recv, cmut, None if not cexc else "id", cret, pre, stateful=True)
             return (v or "()"), (ty or "Unit")
         raise Unsupported(f"call {fname}")
 
@@ -2654,6 +2677,8 @@ class STr:
             raise Unsupported("the method returns a value, the tie expects none")
         if self.ret is not None and v is None:
             raise Unsupported("the method returns nothing, the tie expects a value")
+        if self.mut and self.exc:
+            return f"(self, .ok {v if v is not None else '()'})"
         val = ("(self, " + v + ")" if v is not None else "self") if self.mut else v
         return f".ok {val}" if self.exc else val
 
@@ -2699,7 +2724,7 @@ class STr:
                 for a in list(exc.args) + [k.value for k in exc.keywords]:
                     self.msg(a, env, p2)
             out, ind = self.emit(p2, indent)
-            return f"{out}{ind}.error .{name}"
+            return f"{out}{ind}{self.ERR('.' + name)}"
         if isinstance(s, ast.Expr):
             if not isinstance(s.value, ast.Call):
                 raise Unsupported("expression statement")
@@ -2841,9 +2866,17 @@ class STr:
         names = (["self"] if self.mut else []) + [env.vars[k][0] for k in carried]
         if not names:
             raise Unsupported("a loop that changes nothing")
-        res = " × ".join(_paren(t) if " " in t and not t.startswith("⟦") else t for t in tys)
-        tup = names[0] if len(names) == 1 else "(" + ", ".join(names) + ")"
-        return tys, names, (f"Except PyErr ({res})" if self.exc else res), tup
+        par = lambda ts: " × ".join(_paren(t) if " " in t and not t.startswith("⟦") else t for t in ts)
+        tup = lambda ns: "()" if not ns else ns[0] if len(ns) == 1 else "(" + ", ".join(ns) + ")"
+        if self.mut and self.exc:
+            # the object as it is when the loop raises, or the locals the loop has assigned
+            res = f"{par(tys[:1])} × Except PyErr ({par(tys[1:]) or 'Unit'})"
+            ok, okpat, errpat = f"(self, .ok {tup(names[1:])})", f"(self, .ok {tup(names[1:])})", "(self, .error x)"
+        elif self.exc:
+            res, ok, okpat, errpat = f"Except PyErr ({par(tys)})", f".ok {tup(names)}", f".ok {tup(names)}", ".error x"
+        else:
+            res, ok, okpat, errpat = par(tys), tup(names), tup(names), None
+        return tys, names, res, (ok, okpat, errpat)
 
     def fixed_binders(self, ro, env, with_fuel):
         bs, args = [], []
@@ -2865,10 +2898,11 @@ class STr:
 
     def after_loop(self, name, call, names, tup, rest, env, indent, tail):
         env2 = env.copy()
+        ok, okpat, errpat = tup
         if self.exc:
-            out = f"{indent}match {call} with\n{indent}| .error x => .error x\n{indent}| .ok {tup} =>\n"
+            out = f"{indent}match {call} with\n{indent}| {errpat} => {errpat}\n{indent}| {okpat} =>\n"
             return out + self.block(rest, env2, indent + "  ", tail)
-        return f"{indent}let {tup} := {call}\n" + self.block(rest, env2, indent, tail)
+        return f"{indent}let {okpat} := {call}\n" + self.block(rest, env2, indent, tail)
 
     def for_(self, s, rest, env, indent, tail):
         if s.orelse or not isinstance(s.target, ast.Name):
@@ -2898,7 +2932,7 @@ class STr:
         body = self.block(list(s.body), env2, "    ", lambda e, i: i + call_again)
         if (fresh1 - self.fresh) & set(carried):
             raise Unsupported(f"the loop body hands on the list(s) {sorted((fresh1 - self.fresh) & set(carried))} it appends to")
-        done = (f".ok {tup}" if self.exc else tup)
+        done = tup[0]
         self.aux.append(f"/-- the `for {x} in {ast.unparse(s.iter)}` loop of {'.'.join(self.t.path)} -/\n"
                         f"def {name} {' '.join(bs)} : List {_paren(_lean_ty(el))} → {' → '.join(tys)} → {res}\n"
                         f"  | [], {', '.join(names)} => {done}\n"
@@ -2929,8 +2963,8 @@ class STr:
             raise Unsupported(f"the loop body hands on the list(s) {sorted((fresh1 - self.fresh) & set(carried))} it appends to")
         self.aux.append(f"/-- the `while {ast.unparse(s.test)}` loop of {'.'.join(self.t.path)} -/\n"
                         f"def {name} {' '.join(bs)} : Nat → {' → '.join(tys)} → {res}\n"
-                        f"  | 0, {', '.join('_' for _ in names)} => .error .fuel\n"
-                        f"  | fuel + 1, {', '.join(names)} =>\n{out}{ind}if {c} then\n{body}\n{ind}else\n{ind}  .ok {tup}\n")
+                        f"  | 0, {', '.join(nm if nm == 'self' else '_' for nm in names)} => {self.ERR('.fuel')}\n"
+                        f"  | fuel + 1, {', '.join(names)} =>\n{out}{ind}if {c} then\n{body}\n{ind}else\n{ind}  {tup[0]}\n")
         call = " ".join([name] + args + ["fuel"] + names)
         return self.after_loop(name, call, names, tup, rest, env, indent, tail)
 
@@ -2974,6 +3008,8 @@ class STr:
     def result_type(self):
         st = _lean_ty(self.t.self_type)
         r = _lean_ty(self.ret) if self.ret is not None else None
+        if self.mut and self.exc:
+            return f"{_paren(st)} × Except PyErr ({r or 'Unit'})"
         val = (f"{_paren(st)} × {_paren(r)}" if r else st) if self.mut else r
         if val is None:
             raise Unsupported("a method that neither changes the object nor returns a value")
@@ -3029,8 +3065,8 @@ TARGETS += [
         (False, True, "List (Option (Evse.Ev K))"), "NetOps", "ChargingNetwork.active_evs"),
     # group SimEvent (C01, C05, C19): Simulator._process_event, parametric in the network and the queue object
     _st("sim_process_event", SIMPY, ("Simulator", "_process_event"), "PySim K σ τ",
-        [("$np", "netPlugin", "σ → Evse.Ev K → Except PyErr σ"),
-         ("$nu", "netUnplug", "σ → String → Option String → Except PyErr σ"), ("$qa", "queueAdd", "τ → Event → τ"),
+        [("$np", "netPlugin", "σ → Evse.Ev K → σ × Except PyErr Unit"),
+         ("$nu", "netUnplug", "σ → String → Option String → σ × Except PyErr Unit"), ("$qa", "queueAdd", "τ → Event → τ"),
          ("event", "event", "PyEvent K")], (True, True, None), "SimEvent",
         "Simulator._process_event (network.plugin / network.unplug / event_queue.add_event are parameters)",
         extra_binders="{σ τ : Type}", noops=("self._print",)),
